@@ -1452,6 +1452,15 @@ func (ro *RedisOutput) bisyncStartPoint(ctx context.Context, runIDs []string) (S
 		ro.logger.Infof("bisync startpoint parallel: checkpoint(%s), slots(%d), snapshot(%+v), records(%d), minSeq(%d), runIDs(%v)", checkpointName, len(slots), snapshot, len(records), minSeq, runIDs)
 		frontier, err := checkpoint.RebuildBisyncFrontier(snapshot, records)
 		bisyncFrontierRebuildGauge.Set(time.Since(begin).Seconds(), ro.cfg.InputName)
+		if err != nil && errors.Is(err, checkpoint.ErrBisyncJournalGap) {
+			// No snapshot and the journal does not start at seq=1: units completed out of order and
+			// the replay stopped before the first frontier was saved. It is a hole like any other,
+			// resume in front of it, i.e. from the root checkpoint; the later units are replayed again.
+			// Returning the error would fail every later start too, the journal does not change
+			// while the replay is down.
+			ro.logger.Warnf("bisync startpoint parallel journal gap behind the root checkpoint: checkpoint(%s), err(%v)", checkpointName, err)
+			frontier, err = nil, nil
+		}
 		if err != nil {
 			return sp, 0, false, err
 		}
